@@ -22,6 +22,8 @@ package zklog
 
 //@ func (*Proof).Verify
 //@   nopanic[C05]
+//@   modifies nothing
+//@   allocates
 //@   requires hash != nil && hash.h != nil && public.H != nil && public.X != nil && public.Y != nil && (p != nil ==> shaped(p))
 
 //@ func challenge
